@@ -11,6 +11,7 @@ import DimodProofs.ZipEnd
 import DimodProofs.CqmDirs
 import DimodProofs.CqmClosed
 import DimodProofs.DqmClosed
+import DimodProofs.CqmDomain
 
 /-! # C09 — binary model files load back as the identical model
 
@@ -680,5 +681,35 @@ theorem dqm_file_roundtrip_closed (crc32 : Bytes → Nat) (inflate : Bytes → O
   exact dqm_blob_loader_roundtrip parseDqmHeader parseVarsReal (readDqmBlob crc32 inflate) (fun d => d.caseStarts.length) _ x e
     (varsTextOf labels) _ _ c (serializeLabels labels) (dqm_header_ok _ _ hlen) (by rw [← hxe]; omega) hmagic h22 hsig hz hdir hread
     (fun _ => ⟨VarsOK_real _ hl hvlen, by rw [serializeLabels_length, hn]⟩)
+
+/-- **the domain of `cqm_file_roundtrip_closed` is decidable** (for labels without floats): the Boolean check
+    `CqmSrc.domainB` evaluates every conjunct of `CqmSrc.InDomain` and is sound for it. -/
+theorem cqm_domain_check_sound (s : CqmSrc) (h : s.domainB = true) : s.InDomain := s.domainB_sound h
+
+/-- non-vacuity of `cqm_file_roundtrip_closed`: a concrete CQM (one binary variable, objective `x + 2`, a hard constraint
+    labelled `"c0"` and a soft, discrete-marked one labelled `("a", 1)`) passes the decidable domain check, its members
+    fit the directory fields, the ignored header fields of `zipfile` are admissible, and the file is below 4 GiB -/
+example : exCqm.domainB = true ∧ (∀ i, (exMeta i).OK) ∧
+    (∀ m ∈ cqmMembers 4 exCqm.content, m.1.length < 256 ^ 2 ∧ m.2.length < 256 ^ 4 - 1) ∧
+    (cqmMembers 4 exCqm.content).length = 11 ∧ (dumpCqm exCrc none exMeta exCqm).length < 4294967295 ∧ (∀ b, exCrc b < 256 ^ 4) := by
+  refine ⟨by decide +kernel, exMeta_ok, by decide +kernel, by decide +kernel, by decide +kernel, fun b => ?_⟩
+  unfold exCrc; omega
+
+/-- … hence the closed theorem applies to it: the file loads back to the model -/
+example : loadCqmSrc exCrc (fun _ => none) (dumpCqm exCrc none exMeta exCqm) = some exCqm :=
+  cqm_file_roundtrip_closed exCrc (fun _ => none) none exMeta exCqm (exCqm.domainB_sound (by decide +kernel))
+    (fun b => by unfold exCrc; omega) (fun d hd => by simp at hd) exMeta_ok
+    (fun m hm => memberFits_none m ((by decide +kernel : ∀ m ∈ cqmMembers 4 exCqm.content, m.1.length < 256 ^ 2 ∧ m.2.length < 256 ^ 4 - 1) m hm).1
+      ((by decide +kernel : ∀ m ∈ cqmMembers 4 exCqm.content, m.1.length < 256 ^ 2 ∧ m.2.length < 256 ^ 4 - 1) m hm).2)
+    (by decide +kernel) (by decide +kernel)
+
+/-- non-vacuity of `dqm_file_roundtrip_closed` / `npy_roundtrip`: the six arrays of a concrete DQM (one variable, two
+    cases) satisfy the `.npy` side conditions (checked by the Boolean `NpyMember.okB`), and its content is well formed -/
+example : (∀ m ∈ dqmMembers exDqm, m.okB = true) ∧ (∀ m ∈ dqmMembers exDqm, m.OK) := by
+  have h : ∀ m ∈ dqmMembers exDqm, m.okB = true := by decide +kernel
+  exact ⟨h, fun m hm => m.okB_sound (h m hm)⟩
+
+example : DqmWF exDqm := by
+  constructor <;> simp [exDqm, exF8, LowerOK, startsBad] <;> decide
 
 end C09
